@@ -51,5 +51,6 @@ func transformEnvFileValue(data any) any {
 		}
 		return v
 	}
-	return nil
+	// unexpected type: left as is, reported by validation
+	return data
 }
